@@ -10,6 +10,8 @@ package main
 
 import (
 	"fmt"
+	"os"
+	"runtime"
 	"sort"
 	"strings"
 
@@ -132,6 +134,19 @@ func frBody(sc frScenario) func() {
 				frW = openWorld(frF, frRep)
 			}
 			fr = &frWorld{execs: n}
+		}
+		if os.Getenv("FR_MEM") != "" && fr.execs%200 == 0 {
+			var ms runtime.MemStats
+			runtime.ReadMemStats(&ms)
+			fmt.Fprintf(os.Stderr, "MEM execs=%d heapInuse=%dMB heapSys=%dMB sys=%dMB goroutines=%d\n", fr.execs, ms.HeapInuse>>20, ms.HeapSys>>20, ms.Sys>>20, runtime.NumGoroutine())
+		}
+		if fr.e != nil {
+			// a database that is not used any more: its three worker pools are never stopped by lindb (9 goroutines each)
+			if p := fr.e.db.ExecutorPool(); p != nil {
+				p.Filtering.Stop()
+				p.Grouping.Stop()
+				p.Scanner.Stop()
+			}
 		}
 		fr.e = frW.newDB() // every execution starts from the same state: a database of its own
 		fr.execs++
